@@ -277,6 +277,8 @@ func Assert(id string, c bool) {
 		mu.Lock()
 		failed = append(failed, id)
 		mu.Unlock()
+		// printed at once: the process may die later in the same run (e.g. a panic further down the schedule)
+		fmt.Println("REPLAY-ASSERT-FAILED", id)
 	}
 }
 func Reach(id string)          {}
